@@ -289,3 +289,47 @@ def rand_policy_history(rng):
         elif x < 0.35:
             ops.append(["unsub", rng.choice(["#0", "#1", "-1"])])
     return {"fns": mk_fns(pool, raises), "ops": resolve(ops), "pool": pool, "gen": "random-policy"}
+
+
+# ---------------------------------------------------------------- callbacks that change the subscriptions while a
+# document is being delivered (RE.unsubscribe / RE.subscribe called from inside the callback)
+
+ACT_PATTERNS = [["start", None, None], ["event", None, 1], ["stop", None, None]]
+PLAIN4 = {"kind": "func", "eq": 9, "raises": []}        # fn 3: only ever subscribed by a callback
+
+
+def enumerate_mutating():
+    """a, b, c subscribed to 'all' (tokens 0, 1, 2); exactly one of them, on one kind of document, unsubscribes a
+    token (its own / each of the others) or subscribes the plain callable 3; both policies; two plans."""
+    for actor in range(3):
+        for pat in ACT_PATTERNS:
+            for act in ([["unsub", t] for t in range(3)] + [["sub", 3, "all"], ["sub", 3, "event"]]):
+                for ign in (True, False):
+                    for pi, plan in enumerate(PLANS19[:2]):
+                        fns = mk_fns("fmo") + [dict(PLAIN4)]
+                        fns[actor]["acts"] = [[list(pat), list(act)]]
+                        ops = [["ignore", ign]] + [["sub", f, "all"] for f in range(3)] + [call(None, plan)] + [call(None, PROBE)]
+                        yield {"fns": fns, "ops": resolve(ops), "pool": "fmo",
+                               "gen": "mutating %s ign=%d plan=%d" % (act[0], ign, pi)}
+
+
+def rand_acts(rng, ntok=6):
+    acts = []
+    for _ in range(rng.randint(1, 2)):
+        s = rng.choice(["start", "descriptor", "event", "stop"])
+        pat = [s, rng.choice([None, None, 0, 1]), rng.choice([None, 1, 2]) if s == "event" else None]
+        if rng.random() < 0.65:
+            acts.append([pat, ["unsub", rng.randrange(ntok)]])
+        else:
+            acts.append([pat, ["sub", 3, rng.choice(["all", "all", "start", "event", "stop", "descriptor"])]])
+    return acts
+
+
+def add_random_acts(rng, case, p=0.5):
+    """Give some of the (first three) callables of a generated case callback actions; adds plain callable 3."""
+    case["fns"] = case["fns"][:3] + [dict(PLAIN4, raises=rand_raises(rng, 0.3)[0])]
+    for f in case["fns"][:3]:
+        if rng.random() < p:
+            f["acts"] = rand_acts(rng)
+    case["gen"] = case.get("gen", "") + "+acts"
+    return case
